@@ -306,11 +306,14 @@ def merge_strings(pieces):
     then the contents of the others (their prefix and opening quote removed)"""
     if len(pieces) == 1:
         return pieces[0]
-    out = conc(pieces[0])[:-1]
-    for p in pieces[1:]:
+    prefix = ""
+    out = ""
+    for p in pieces:
         s = conc(p)
-        out += s[s.index('"') + 1 : -1]
-    return out + '"'
+        q = s.index('"')
+        prefix = prefix or s[:q]  # one prefixed piece makes the whole literal prefixed (C99 6.4.5p4)
+        out += s[q + 1 : -1]
+    return prefix + '"' + out + '"'
 
 
 def add_quals(t, quals):
